@@ -151,6 +151,8 @@ def _check_reports(bt, b, spec):
         labs.append("multiplier")
     if not secs:
         labs.append("no_securities")
+    if spec.get("mixed_kinds"):
+        labs.append("mixed_security_kinds")
     return {"nontrivial": len(tx) >= 2, "labels": labs}
 
 
@@ -180,6 +182,29 @@ def _report_spec(draw):
         # a run that never trades / has no securities
         spec = draw(gen.backtest_spec(max_dates=8, nested=False, declare=False))
         spec["tree"]["algos"] = [["RunAfterDate", {"date": "2100-01-01"}]] + spec["tree"]["algos"]
+        return spec
+    if k <= 2:
+        # a market-value book holding securities of every kind (fixed-income, coupon-paying and hedge securities are weighed by value there,
+        # like everything else)
+        spec = draw(gen.backtest_spec(max_dates=12, nested=False, declare=True, allow_risk=False))
+        n = len(spec["dates"])
+        kids = []
+        coup = {}
+        for c in spec["tree"]["children"]:
+            t = c if isinstance(c, str) else c["sec"]
+            kind = draw(st.sampled_from(["Security", "FixedIncomeSecurity", "CouponPayingSecurity", "HedgeSecurity", "CouponPayingHedgeSecurity"]))
+            d = {"sec": t, "kind": kind}
+            if isinstance(c, dict):
+                d.update({k_: v for k_, v in c.items() if k_ in ("mult", "lazy")})
+            kids.append(d)
+            if kind.startswith("CouponPaying"):
+                coup[t] = [draw(st.sampled_from([0.0, 0.0, 0.01, 0.5])) for _ in range(n)]
+        spec["tree"]["children"] = kids
+        if coup:
+            # every coupon-paying security needs a coupon on every date it may be held
+            spec["frames"]["coupons"] = {"kind": "frame", "cols": coup}
+            spec["additional"] = sorted(set(spec["additional"]) | {"coupons"})
+        spec["mixed_kinds"] = True
         return spec
     return draw(gen.backtest_spec(max_dates=14))
 
